@@ -6,6 +6,8 @@ mod c10;
 mod c11;
 mod c13;
 mod c16;
+mod c17;
+mod c18;
 mod c19;
 mod common;
 mod progen;
@@ -28,6 +30,8 @@ fn lookup(id: &str) -> Option<(RunFn, CheckFn)> {
         "C11" => (c11::run, c11::check_record),
         "C13" => (c13::run, c13::check_record),
         "C16" => (c16::run, c16::check_record),
+        "C17" => (c17::run, c17::check_record),
+        "C18" => (c18::run, c18::check_record),
         "C19" => (c19::run, c19::check_record),
         _ => return None,
     })
@@ -54,6 +58,8 @@ fn main() {
         let mut ok = 0;
         let mut bytes = 0;
         let full = args.iter().any(|a| a == "full");
+        let mut slowest = (0.0f64, 0usize, String::new());
+        let mut total_t = 0.0f64;
         for ch in sample_strategy(&strat, seed, n) {
             let tgts: &[Tgt] = if full { &Tgt::ALL4 } else { &[Tgt::Dx, Tgt::Msl] };
             for &tgt in tgts {
@@ -65,7 +71,14 @@ fn main() {
                 }
                 let files = vec![("main.rssl".to_string(), text.clone())];
                 let mode = if full { Mode::All } else { Mode::NoPipeline };
-                match compile(&CompileReq { files: &files, entry: "main.rssl", defines: &[], tgt, mode, validate_layout: false }) {
+                let t0 = std::time::Instant::now();
+                let r = compile(&CompileReq { files: &files, entry: "main.rssl", defines: &[], tgt, mode, validate_layout: false });
+                let dt = t0.elapsed().as_secs_f64();
+                if dt > slowest.0 {
+                    slowest = (dt, text.len(), text.clone());
+                }
+                total_t += dt;
+                match r {
                     Err(p) => {
                         reasons.entry(format!("{} PANIC {}", tgt.name(), p)).or_insert((0, text.clone())).0 += 1;
                     }
@@ -79,6 +92,10 @@ fn main() {
             }
         }
         println!("accepted {} compilations of {} programs, avg {} bytes", ok, n, bytes / n.max(1));
+        println!("total compile time {:.2}s, slowest {:.3}s for {} bytes", total_t, slowest.0, slowest.1);
+        if args.iter().any(|a| a == "slow") {
+            println!("{}", slowest.2);
+        }
         for (k, (c, ex)) in &reasons {
             println!("{:5} {}", c, k);
             if args.iter().any(|a| a == "ex") {
